@@ -15,8 +15,12 @@
                                               mean, cov) [Err 0 = not square, Err 1 = wrong mean
                                               length] of outcome of draw(source, k, d<ns>, d<nf>)
                                               of (option (shape rows) consumed)
-                                          the model never produces the inner panic (K1: the
-                                          library does for k = 0)
+                                          k >= 1 (k = 0 is NOT in the language of this op: see 5)
+     (17 5 ty mean cov source (ns nf))    the same with k = 0 samples, a separate op so that the
+                                          shrinker can never turn a disagreement of op 3 into a
+                                          case of known finding K1 (the library panics inside
+                                          draw for 0 samples; the model returns None, i.e. the
+                                          model never produces the inner panic)
      (17 4 ty data)                       Gaussian::approximating(data) -> outcome (mean variance) *)
 From Coq Require Import List ZArith NArith Bool.
 From EasyML Require Import Base.Sx Model.Num Model.Stats Model.Gaussian.
@@ -38,6 +42,21 @@ Definition dmat17 (s : sx) : option (list (list R)) :=
 
 Definition consumed (source rest : list R) : sx := snat (length source - length rest).
 
+Definition c17_mv (k : N) (mean cov : list (list R)) (src : list R) (ns nf : nat) : sx :=
+  SL [ soutcome (fun g =>
+         let r := mv_draw ops g src k in
+         soutcome (fun r => SL [sopt smat17 (fst r); consumed src (snd r)]) (Ok r))
+         (mv_new mean cov);
+       soutcome (fun g =>
+         let r := mvt_draw ops g src k ns nf in
+         soutcome (fun r =>
+           SL [sopt (fun t => match t with
+                              | (d0, d1, rows) =>
+                                  SL [SL [spair snat sN d0; spair snat sN d1]; smat17 rows]
+                              end) (fst r);
+               consumed src (snd r)]) (Ok r))
+         (mvt_new (concat mean) cov) ].
+
 Definition c17_run (op : Z) (args : list sx) : sx :=
   match op, args with
   | 1%Z, [m; v; x] =>
@@ -55,20 +74,13 @@ Definition c17_run (op : Z) (args : list sx) : sx :=
   | 3%Z, [k; mean; cov; src; SL [ns; nf]] =>
       match dN k, dmat17 mean, dmat17 cov, dnums17 src, dnat ns, dnat nf with
       | Some k, Some mean, Some cov, Some src, Some ns, Some nf =>
-          SL [ soutcome (fun g =>
-                 let r := mv_draw ops g src k in
-                 soutcome (fun r => SL [sopt smat17 (fst r); consumed src (snd r)]) (Ok r))
-                 (mv_new mean cov);
-               soutcome (fun g =>
-                 let r := mvt_draw ops g src k ns nf in
-                 soutcome (fun r =>
-                   SL [sopt (fun t => match t with
-                                      | (d0, d1, rows) =>
-                                          SL [SL [spair snat sN d0; spair snat sN d1]; smat17 rows]
-                                      end) (fst r);
-                       consumed src (snd r)]) (Ok r))
-                 (mvt_new (concat mean) cov) ]
+          if (k =? 0)%N then bad_case else c17_mv k mean cov src ns nf
       | _, _, _, _, _, _ => bad_case
+      end
+  | 5%Z, [mean; cov; src; SL [ns; nf]] =>
+      match dmat17 mean, dmat17 cov, dnums17 src, dnat ns, dnat nf with
+      | Some mean, Some cov, Some src, Some ns, Some nf => c17_mv 0%N mean cov src ns nf
+      | _, _, _, _, _ => bad_case
       end
   | 4%Z, [data] =>
       match dnums17 data with
